@@ -135,8 +135,8 @@ class SidedContext(Context):
 # ---------------------------------------------------------------------------------------------- generator
 
 class Gen:
-    def __init__(self, rng, ctx, maxdepth=6, sides=False, gradient=False, v1=False):
-        self.rng, self.ctx, self.maxdepth, self.sides, self.gradient, self.v1 = rng, ctx, maxdepth, sides, gradient, v1
+    def __init__(self, rng, ctx, maxdepth=6, sides=False, gradient=False, v1=False, core=False):
+        self.rng, self.ctx, self.maxdepth, self.sides, self.gradient, self.v1, self.core = rng, ctx, maxdepth, sides, gradient, v1, core
         self.budget = 20
 
     def top(self, free, depth):
@@ -162,7 +162,7 @@ class Gen:
         return ('expr', neg, terms), summed
 
     def frac(self, free, depth, avoid):
-        if depth > 0 and self.budget > 0 and self.rng.random() < .2:
+        if depth > 0 and self.budget > 0 and not self.core and self.rng.random() < .2:
             n, s1 = self.term(free, depth - 1, avoid)
             d, s2 = self.term([], depth - 1, avoid | s1 | {l for l, _ in free})
             return ('frac', n, d), s1 | s2
@@ -186,7 +186,8 @@ class Gen:
             slots[a].append((l, n)); slots[b].append((l, n))
         factors = []
         if r.random() < .25:
-            factors.append(('num', r.choice(['2', '3', '1', '0', '10', '1.5', '.5', '2.', '1e1', '2.5e-1'] + ([] if self.v1 else ['1_0', '007']))))
+            factors.append(('num', r.choice(['2', '3', '1', '0', '10', '007', '42'] if self.core else
+                                            ['2', '3', '1', '0', '10', '1.5', '.5', '2.', '1e1', '2.5e-1'] + ([] if self.v1 else ['1_0', '007']))))
         summed = set(mine)
         for sl in slots:
             r.shuffle(sl)
@@ -196,7 +197,7 @@ class Gen:
 
     def power(self, idx, depth, avoid):
         r = self.rng
-        if r.random() < .2:
+        if r.random() < .2 and not self.core:
             base, s = self.item(idx, depth, avoid)
             if depth > 0 and r.random() < .35:
                 e, s2 = self.expr([], depth - 1, avoid | s | {l for l, _ in idx})
@@ -211,16 +212,18 @@ class Gen:
         letters = [l for l, _ in idx]
         dups = {l for l in letters if letters.count(l) > 1}
         opts = ['var', 'var']
-        if depth > 0 and not dups:
+        if depth > 0 and not dups and self.core:
+            opts += ['paren', 'paren', 'jump', 'mean']
+        elif depth > 0 and not dups:
             opts += ['paren', 'paren', 'call0']
             if self.sides: opts += ['jump', 'mean']
             if any(n == 2 for _, n in idx) and not self.v1: opts += ['call1']
             if any(n == 3 for _, n in idx) and not self.v1: opts += ['call1w']
             if self.gradient and any(n == 2 for _, n in idx): opts += ['grad', 'grad']
             if r.random() < .3 and not self.v1: opts += ['call1num', 'call2']
-        if depth > 0 and len(dups) == 1 and letters.count(next(iter(dups))) == 2 and dict(idx)[next(iter(dups))] == 2:
+        if depth > 0 and not self.core and len(dups) == 1 and letters.count(next(iter(dups))) == 2 and dict(idx)[next(iter(dups))] == 2:
             opts += ['calltrace', 'calltrace']
-        if self.sides and not idx: opts += ['normalsq']
+        if self.sides and not idx and not self.core: opts += ['normalsq']
         kind = r.choice(opts)
         if kind == 'var':
             entries = [(l, n) for l, n in idx]
@@ -582,6 +585,39 @@ def _pow(b, e):
 def aligned(val, order):
     """the array of `val` with axes in the order of the letters `order`"""
     return val.arr.transpose([val.labels.index(l) for l in order])
+
+
+# ---------------------------------------------------------------------------------------------- core grammar: tokens for the Lean `Src` reader
+
+def src_tokens(node):
+    """prefix tokens of an AST of the core grammar (None if the tree uses other constructs)"""
+    def item(n):
+        if n[0] == 'num':
+            return ['num'] + list(n[1]) + [';'] if n[1].isdigit() and n[1].isascii() else None
+        if n[0] == 'var':
+            if not n[1] or ' ' in n[1] or (n[2] and ' ' in n[2]): return None
+            return ['var', n[1], n[2] or '-']
+        if n[0] in ('paren', 'jump', 'mean'):
+            e = expr(n[1])
+            return None if e is None else [n[0]] + e
+        return None
+    def term(n):
+        if n[0] != 'term': return None
+        out = []
+        for k, f in enumerate(n[1]):
+            i = item(f)
+            if i is None: return None
+            out += (['prod'] if k == 0 else ['pcons']) + i
+        return out + ['pnil']
+    def expr(n):
+        if n[0] != 'expr': return None
+        out = []
+        for k, (sub, t) in enumerate(n[2]):
+            tt = term(t)
+            if tt is None: return None
+            out += (['sum', '1' if n[1] else '0'] if k == 0 else ['tcons', '1' if sub else '0']) + tt
+        return out + ['tnil']
+    return expr(node)
 
 
 # ---------------------------------------------------------------------------------------------- AST-level rule violations
